@@ -39,11 +39,82 @@ def run(rep, ctx):
     rep.run_rule("C18.R2", "Fraction: arithmetic dunders apply the matching operator; == and < share one comparison", r2_fraction, ctx)
     rep.run_rule("C18.R3", "FractionScalar agrees with Scalar: ordering, validation and value access", r3_siblings, ctx)
     rep.run_rule("C18.R4", "fraction parts are converted separately: sound only for units without offset", r4_parts, ctx)
+    rep.run_rule("C18.R7", "CreateFromFloat: the sign given to the fraction part is the sign of the value itself", r7_sign, ctx)
     rep.not_decided += [
-        "CreateFromFloat (continued fractions steered by str() of floats)",
+        "CreateFromFloat beyond its sign handling (continued fractions steered by str() of floats)",
         "the format -> parse round trip through the verbose regular expression",
         "exactness of Fraction's normalisation loop (`while abs(a - round(a)) > SMALL`)",
     ]
+
+
+def r7_sign(rep, ctx):
+    """CreateFromFloat works on abs(value) and puts the sign back at the end.  The numerator of the result must be
+    multiplied by a faithful sign of the *value*: `value / abs(value)`, copysign, or +-1 chosen by comparing the value
+    itself with 0.  A sign read off the truncated integer part (`int(value) < 0`) is lost for -1 < value < 0.
+    Only this clause of CreateFromFloat is decided; the digits of the fraction are not."""
+    from ..facts import facts as nfacts
+
+    m = ctx.model
+    fn = m.method("FractionValue", "CreateFromFloat")
+    cfg = CFG(fn.node)
+    res = Resolver(m, fn)
+    P = ("param", fn.params.index("value"), "value")
+    ABS = ("call", ("name", "abs"), (P,), ())
+
+    def faithful(t):
+        if t[0] == "op" and t[1] == "Div" and tuple(t[2]) in ((P, ABS), (ABS, P)):
+            return True
+        return t[0] == "call" and (t[1] == ("name", "copysign") or (t[1][0] == "attr" and t[1][2] == "copysign")) and len(t[2]) == 2 and t[2][1] == P and t[2][0][0] == "const" and t[2][0][1] in (1, 1.0)
+
+    def truncating(t):
+        return [s_ for s_ in walk(t) if s_[0] == "call" and (s_[1] in (("name", "int"), ("name", "round")) or (s_[1][0] == "attr" and s_[1][2] in ("trunc", "floor") and False) or (s_[1][0] == "attr" and s_[1][2] == "trunc")) and any(x == P for x in walk(s_))]
+
+    n = 0
+    for r in cfg.returns():
+        node = cfg.ast[r]
+        v = node.value
+        if not (isinstance(v, ast.Call) and len(v.args) == 2 and isinstance(v.args[1], ast.Tuple) and len(v.args[1].elts) == 2):
+            continue
+        n += 1
+        num = v.args[1].elts[0]
+        verdict = None  # True ok / False lossy
+        sides = [num.left, num.right] if isinstance(num, ast.BinOp) and isinstance(num.op, ast.Mult) else []
+        why = ""
+        for e in sides:
+            te = res.term(e)
+            if faithful(te):
+                verdict = True
+                break
+            alts = [("const", -a_[2][0][1]) if a_[0] == "op" and a_[1] == "USub" and a_[2][0][0] == "const" and isinstance(a_[2][0][1], (int, float)) else a_ for a_ in alternatives(te)]
+            if alts and all(a_[0] == "const" and a_[1] in (1, -1, 1.0, -1.0) for a_ in alts) and {a_[1] for a_ in alts} >= {1} and len({abs(a_[1]) for a_ in alts}) == 1 and len(alts) > 1:
+                # +-1 chosen by a test: the test must compare the value itself with 0
+                per = []
+                for st_, t_ in res.origins(e):
+                    site = cfg.node_of(st_) if st_ is not None else r
+                    got = None
+                    for k, l, r_, pos in nfacts(cfg, site):
+                        if k in ("lt", "le", "gt", "ge") and r_ is not None:
+                            lt_, rt_ = res.term(l), res.term(r_)
+                            for x, y in ((lt_, rt_), (rt_, lt_)):
+                                if y[0] == "const" and y[1] in (0, 0.0):
+                                    if x == P:
+                                        got = True
+                                    elif truncating(x) and got is None:
+                                        got = False
+                                        why = show(x)
+                    per.append(got)
+                if per and all(g is True for g in per):
+                    verdict = True
+                    break
+                if any(g is False for g in per):
+                    verdict = False
+        if verdict is None:
+            t = res.term(num)
+            if True:
+                raise AnalysisError("CreateFromFloat: how the numerator `%s` gets its sign was not recognised (%s)" % (norm(ast.unparse(num)), show(t, 120)))
+        rep.check(verdict, "C18.R7", "CreateFromFloat:numerator-sign:%s" % norm(ast.unparse(num))[:40], "the numerator carries the sign of the value itself",
+                  "the numerator's sign is decided from %s, not from the value: for -1 < value < 0 the integer part is 0 and the sign is lost (CreateFromFloat(-0.375) denotes +0.375)" % why, node=node, fn=fn)
+    rep.floor("C18.R7", "fraction-building returns of CreateFromFloat", n, 1)
 
 
 def _single_return(fn):
